@@ -85,6 +85,25 @@ CHECKS = {
               "modelled); tolerance is the property's own 1 LSB (+1e-6)."),
         technique="TLA+ token model of decimation/kept ranges checked with TLC + trace validation of real converter runs; numeric clauses by projection",
     ),
+    "C04": dict(
+        category="model_checking",
+        text=("TLC checks spec/sys/NP2Convert.tla: histories of up to 3 process() runs (fresh converter per run) x the 16 option "
+              "vectors {overwrite, post_check, compress, delete_original} x probe kind {NP2.4, NP2.1, NP1, already split} x original "
+              "form {bin, cbin} with an interruption enabled after every step (prepare, each window, close, metadata, verification "
+              "before/after completion, each per-shank unlink/compress/unlink, delete): Recoverable in every state, the original "
+              "disappears only after verification (NP2.4) / in-place compression (NP2.1), status 0 means nothing changed, a "
+              "non-forced re-run over existing output returns 0, a forced re-run completes with a complete valid set from any "
+              "reachable earlier state, foreign inputs return -1 / 0 untouched. Real NP2Converter histories (every option vector x "
+              "every interruption point for single runs; two/three-run histories) are executed with the steps instrumented from "
+              "the harness; the projected directory tree before every step (bytes / decompressed content of every file) is "
+              "validated as a trace: each step must be the spec's action for its label, the property layer is evaluated on every "
+              "observed directory, step and run outcome."),
+        design_ref="DESIGN.md §4 C04",
+        note=("Trusted: TLC; the projection of the directory tree; wrappers on NP2Converter methods, Path.unlink, "
+              "Reader.compress_file/close; interruptions are exceptions at step boundaries (no torn writes); one converter object "
+              "per run; 2 shanks x 2 windows recordings (the protocol is independent of the sizes)."),
+        technique="TLA+ run-history state machine with crash actions checked with TLC + interruption-injected trace validation of real converter histories",
+    ),
 }
 
 NOT_YET = {}
